@@ -27,6 +27,14 @@ side never has unread or still-arriving data):
      raise); both sides, from inside connectionLost, call write, writeSequence, loseConnection,
      abortConnection, pause/resumeProducing on the dying transport.  Oracle as for d: prefixes,
      exactly one connectionLost per side, nothing after it; the reasons are not judged.
+  h  cross-connection groups: two connection pairs T and V on the same reactor.  V's server has a
+     large output queued (its client is not reading yet); in one reactor turn T's client sends a
+     message and V's client makes V's server readable (a bare FIN: it half-closes but keeps reading -
+     or a message).  T's server, inside dataReceived, acts on V's server transport:
+     loseConnection() / write+writeSequence+loseConnection() / abortConnection() /
+     pauseProducing()+later resume.  Both accept orders and both send orders are generated.  Oracle
+     per connection, unchanged: an orderly close delivers every byte written before it and gives
+     ConnectionDone on both sides, an abort gives a prefix, connectionLost exactly once.
 12 % of the payload sizes are recv-buffer / SEND_LIMIT boundary values (65536, 131072, ... +-1).
 Some kind-a specs use the "bigtail" pattern: one write of 256 KiB..1 MiB (a multiple of SEND_LIMIT),
 a short trailer one reactor turn later, then loseConnection(), default socket buffers.
@@ -57,7 +65,7 @@ import random
 LEVEL = "exploration"
 ENGINE = "E6-reactorproc"
 TECHNIQUE = "runtime monitoring: received-stream == generated payload (digest + incremental compare) and connectionLost exactly-once/reason checks on real loopback sockets per reactor"
-RULE = ("one case = (reactor class, connection spec); a spec = scenario kind a/b/c/d/e/f/g, closing/aborting role, per-direction "
+RULE = ("one case = (reactor class, connection spec); a spec = scenario kind a/b/c/d/e/f/g (+ cross-connection groups h), closing/aborting role, per-direction "
         "payload (0..256 KiB quick, 0..4 MiB thorough) cut into generated write/writeSequence/delay ops, socket buffer "
         "sizes, receiver pause plans; the same specs run on all four reactors; distinct by (reactor, spec); "
         "non-trivial = at least one byte sent in some direction")
@@ -69,9 +77,9 @@ ASSUMPTIONS = [
 SHARDS = {"quick": 4, "thorough": 16}
 FLOORS = {
     "quick": {"conns_decided": 40, "connectionlost_observed": 80, "bytes_received": 1000000, "decided_select": 10, "decided_poll": 10,
-              "decided_epoll": 10, "decided_asyncio": 10, "kind_a": 4, "kind_b": 4, "kind_c": 4, "kind_d": 4, "kind_e": 4, "kind_f": 4, "kind_g": 4, "boundary_totals": 4, "acks_written": 8, "conns_exceeding_socket_buffers": 12},
+              "decided_epoll": 10, "decided_asyncio": 10, "kind_a": 4, "kind_b": 4, "kind_c": 4, "kind_d": 4, "kind_e": 4, "kind_f": 4, "kind_g": 4, "kind_h": 64, "h_acted_on_conn_with_pending_fin": 8, "boundary_totals": 4, "acks_written": 8, "conns_exceeding_socket_buffers": 12},
     "thorough": {"conns_decided": 100, "connectionlost_observed": 200, "bytes_received": 10000000, "decided_select": 25, "decided_poll": 25,
-                 "decided_epoll": 25, "decided_asyncio": 25, "kind_a": 8, "kind_b": 8, "kind_c": 8, "kind_d": 8, "kind_e": 8, "kind_f": 8, "kind_g": 8, "boundary_totals": 16, "acks_written": 30, "conns_exceeding_socket_buffers": 30},
+                 "decided_epoll": 25, "decided_asyncio": 25, "kind_a": 8, "kind_b": 8, "kind_c": 8, "kind_d": 8, "kind_e": 8, "kind_f": 8, "kind_g": 8, "kind_h": 200, "h_acted_on_conn_with_pending_fin": 40, "boundary_totals": 16, "acks_written": 30, "conns_exceeding_socket_buffers": 30},
 }
 WATCHDOG_S = {"quick": 600, "thorough": 3000}
 READY = True
@@ -99,6 +107,7 @@ def scenario(reactor, inp):
     from zope.interface import implementer
 
     specs = list(inp["conns"])
+    groups = {}
     state = {"next": 0, "active": 0, "done": [], "problems": [], "finishing": False}
     conns = {}
 
@@ -139,6 +148,17 @@ def scenario(reactor, inp):
                 sock.setsockopt(socket.SOL_SOCKET, socket.SO_SNDBUF, self.spec["sndbuf"])
             if self.spec["rcvbuf"]:
                 sock.setsockopt(socket.SOL_SOCKET, socket.SO_RCVBUF, self.spec["rcvbuf"])
+            if self.kind == "h":
+                if not self.ops:
+                    self.ops_done = True
+                g = groups.setdefault(self.spec["group"], {"members": {}, "armed": False})
+                g["members"][(self.spec["h_role"], self.role)] = self
+                if self.spec["h_role"] == "V" and self.role == "client":
+                    self.transport.pauseProducing()  # V's big output piles up in the server's user-space buffer
+                if self.spec["h_role"] == "V" and self.role == "server":
+                    self.run_ops()
+                maybe_arm(g)
+                return
             self.run_ops()
 
         def take(self, n):
@@ -149,6 +169,8 @@ def scenario(reactor, inp):
         def run_ops(self):
             if self.lost or self.aborted:
                 return
+            if self.kind == "h" and self.spec["h_role"] == "T" and self.role == "client" and not groups[self.spec["group"]]["armed"]:
+                return  # T's client only speaks at the trigger
             while self.ops:
                 if self.kind == "d" and self.role == self.spec["closer"] and self.ops_issued >= self.spec["abort_after_ops"]:
                     self.aborted = True
@@ -191,6 +213,11 @@ def scenario(reactor, inp):
             elif k == "d" and self.role == self.spec["closer"]:
                 self.aborted = True
                 self.transport.abortConnection()
+            elif k == "h" and self.spec["h_role"] == "T" and self.role == "server":
+                self.closing = True
+                self.transport.loseConnection()
+            elif k == "h" and self.spec["h_role"] == "V" and self.role == "server":
+                maybe_arm(groups.get(self.spec["group"], {"members": {}, "armed": True}))
 
         def maybe_close(self):
             if (self.role == self.spec["closer"] and self.ops_done and self.rx >= len(self.expect)
@@ -222,7 +249,15 @@ def scenario(reactor, inp):
                 self.n_pauses += 1
                 self.transport.pauseProducing()
                 reactor.callLater(dur / 1000.0, self.resume)
-            if self.kind == "c":
+            if self.kind == "h":
+                if self.spec["h_role"] == "T" and self.role == "server" and not self.closing and self.rx >= len(self.expect):
+                    h_act(self)
+                    self.run_ops()  # its own small reply, then its own loseConnection (see run_ops)
+                elif (self.spec["h_role"] == "V" and self.role == "server" and self.spec["h_action"] == "pause-resume"
+                      and not self.closing and self.rx >= len(self.expect)):
+                    self.closing = True
+                    self.transport.loseConnection()
+            elif self.kind == "c":
                 self.maybe_close()
             elif self.kind == "f" and self.role == self.spec["closer"] and not self.closing:
                 # request/ack: acknowledge every chunk; when the announced request is complete send
@@ -257,6 +292,11 @@ def scenario(reactor, inp):
 
         def connectionLost(self, reason):
             self.lost.append([reason.type.__name__ if reason.type else "?", str(reason.value)[:120]])
+            if self.kind == "h" and self.spec["h_role"] == "V" and self.role == "server" and not groups[self.spec["group"]].get("acted"):
+                # V's own input was handled before T got to act (dispatch order / timing): reading a
+                # peer's FIN legitimately closes a non-half-closeable connection at once, so this
+                # attempt says nothing about the cross-connection case
+                self.conn.h_unordered = True
             if self.kind == "g" and len(self.lost) == 1:
                 # application code re-entering the dying transport from connectionLost: all no-ops
                 t = self.transport
@@ -308,6 +348,56 @@ def scenario(reactor, inp):
         def writeConnectionLost(self):
             self.half("writeConnectionLost")
 
+    def maybe_arm(g):
+        m = g["members"]
+        if g["armed"] or len(m) < 4 or not m[("V", "server")].ops_done:
+            return
+        g["armed"] = True
+        reactor.callLater(0.05, trigger, g)
+
+    def trigger(g):
+        """One reactor turn: T's client sends its message and V's client makes V's server readable
+        (a bare FIN, or a message) - both become pending on the server side at the same time."""
+        m = g["members"]
+        vc, tc = m[("V", "client")], m[("T", "client")]
+        if vc.lost or tc.lost:
+            return
+        order = [vc, tc] if vc.spec["h_first"] == "V" else [tc, vc]
+        for side in order:
+            if side is tc:
+                tc.run_ops()
+            elif vc.spec["h_action"] == "pause-resume":
+                vc.run_ops()  # a message (no FIN)
+            else:
+                vc.half_requested = True
+                vc.transport.loseWriteConnection()  # half close, keeps reading
+        reactor.callLater(0.15, lambda: (not vc.lost) and vc.transport.resumeProducing())
+
+    def h_act(t_server):
+        """Runs inside T-server's dataReceived: acts on ANOTHER connection (V's server transport)
+        whose own input is pending in the same reactor iteration."""
+        g = groups[t_server.spec["group"]]
+        v = g["members"][("V", "server")]
+        action = t_server.spec["h_action"]
+        g["acted"] = action
+        if v.lost:
+            return
+        tr = v.transport
+        if action == "lose":
+            v.closing = True
+            tr.loseConnection()
+        elif action == "write-lose":
+            tr.write(v.take(v.spec["h_trailer"]))
+            tr.writeSequence([v.take(1), v.take(len(v.out) - v.out_pos)])
+            v.closing = True
+            tr.loseConnection()
+        elif action == "abort":
+            v.aborted = True
+            tr.abortConnection()
+        else:  # pause-resume: V's pending message is read only after the resume; then V closes itself
+            tr.pauseProducing()
+            reactor.callLater(0.05, lambda: (not v.lost) and tr.resumeProducing())
+
     class Conn:
         def __init__(self, spec):
             self.spec = spec
@@ -317,6 +407,7 @@ def scenario(reactor, inp):
             self.finished = False
             self.failed = None
             self.never_lost = None
+            self.h_unordered = False
             self.complete_since = None
             sf = protocol.ServerFactory()
             sf.buildProtocol = lambda addr: self.accept()
@@ -376,7 +467,7 @@ def scenario(reactor, inp):
                 self.finish()
 
         def report(self, stuck=False):
-            return {"id": self.spec["id"], "finished": self.finished and not stuck, "failed": self.failed, "never_lost": self.never_lost, "spurious": self.spurious,
+            return {"id": self.spec["id"], "finished": self.finished and not stuck, "failed": self.failed, "never_lost": self.never_lost, "spurious": self.spurious, "h_unordered": self.h_unordered,
                     "client": self.sides["client"].report(), "server": self.sides["server"].report()}
 
     def pump():
@@ -385,6 +476,11 @@ def scenario(reactor, inp):
             state["next"] += 1
             state["active"] += 1
             conns[spec["id"]] = Conn(spec)
+            while spec.get("group") is not None and state["next"] < len(specs) and specs[state["next"]].get("group") == spec["group"]:
+                spec = specs[state["next"]]  # members of a cross-connection group start together
+                state["next"] += 1
+                state["active"] += 1
+                conns[spec["id"]] = Conn(spec)
         if state["active"] == 0 and state["next"] >= len(specs) and not state["finishing"]:
             state["finishing"] = True
             # grace: lets late (duplicate) notifications of already finished connections show up
@@ -543,6 +639,31 @@ def gen_spec(rng, cid, quick):
     return spec
 
 
+H_ACTIONS = ["lose", "lose", "write-lose", "abort", "pause-resume"]
+
+
+def gen_group(rng, gid, first_id, quick):
+    """Two connection pairs T and V on one reactor: a handler of T acts on V's transport while V's
+    own input (its peer's bare FIN, or a message) is pending in the same reactor iteration."""
+    action = H_ACTIONS[gid % len(H_ACTIONS)]
+    big = rng.randint(300000, 600000 if quick else 3000000)
+    trailer, rest = rng.randint(1, 3000), rng.randint(0, 3000)
+    v_total = big + (trailer + 1 + rest if action == "write-lose" else 0)
+    cuts = sorted(rng.randint(0, big) for _ in range(rng.choice([0, 1, 2])))
+    v_ops = [["w", b - a] for a, b in zip([0] + cuts, cuts + [big])]
+    v_msg = rng.randint(1, 2000) if action == "pause-resume" else 0
+    t_msg, t_reply = rng.randint(1, 1200), rng.randint(0, 5000)
+    base = {"kind": "h", "group": gid, "closer": "server", "h_action": action, "h_first": ("V", "T")[(gid // 2) % 2], "pauses": {"client": [], "server": []}}
+    v = dict(base, h_role="V", seed=rng.randrange(2 ** 40), sndbuf=32768, rcvbuf=32768, h_trailer=trailer,
+             c2s={"total": v_msg, "ops": [["w", v_msg]] if v_msg else []}, s2c={"total": v_total, "ops": v_ops})
+    t = dict(base, h_role="T", seed=rng.randrange(2 ** 40), sndbuf=0, rcvbuf=0,
+             c2s={"total": t_msg, "ops": [["w", t_msg]]}, s2c={"total": t_reply, "ops": gen_ops(rng, t_reply)})
+    pair = [t, v] if gid % 2 == 0 else [v, t]  # which of the two is accepted (registered for reading) first
+    for k, sp in enumerate(pair):
+        sp["id"] = first_id + k
+    return pair
+
+
 def plan(ctx):
     """[(job index, reactor, [spec,...])]; the same spec batches go to every reactor."""
     from vf.engines.reactorproc import REACTORS
@@ -551,6 +672,11 @@ def plan(ctx):
     per_batch = 36 if ctx.quick else 52
     specs = [gen_spec(ctx.case_rng("conn", i), i, ctx.quick) for i in range(nconn)]
     batches = [specs[i:i + per_batch] for i in range(0, nconn, per_batch)]
+    gid = 0
+    for bi, batch in enumerate(batches):  # every batch also gets cross-connection groups (kind h)
+        for _ in range(10 if ctx.quick else 10):
+            batch.extend(gen_group(ctx.case_rng("group", gid), gid, 100000 + 2 * gid, ctx.quick))
+            gid += 1
     jobs = []
     for bi, batch in enumerate(batches):
         for ri, name in enumerate(REACTORS):
@@ -564,12 +690,23 @@ def _strip(spec):
 
 def judge_conn(ctx, name, spec, rep):
     kind = spec["kind"]
+    if kind == "h":
+        ctx.count("h_" + spec["h_action"].replace("-", "_") + "_" + spec["h_role"])
+        # judged like an abort (prefix) when T aborted V, otherwise like an orderly close
+        kind = "d" if (spec["h_action"] == "abort" and spec["h_role"] == "V") else "a"
+        if rep.get("h_unordered"):
+            ctx.count("h_v_handled_before_t_acted")
+            kind = "g"  # only prefixes / exactly-once are judged
+        elif spec["h_role"] == "V" and spec["h_action"] != "pause-resume":
+            ctx.count("h_acted_on_conn_with_pending_fin")
+        ctx.count("kind_h")
     wit0 = {"reactor": name, "spec": spec}
     nontrivial = spec["c2s"]["total"] + spec["s2c"]["total"] > 0
     ctx.evaluated()
     ctx.count("conns_decided")
     ctx.count("decided_" + name)
-    ctx.count("kind_" + kind)
+    if spec["kind"] != "h":
+        ctx.count("kind_" + kind)
     ctx.seen("reactors", name)
     if nontrivial:
         ctx.distinct((name, _strip(spec)))
@@ -614,7 +751,19 @@ def judge_conn(ctx, name, spec, rep):
                 key = "stream-corrupted"
             ctx.violation(key, "the bytes received differ from the bytes written (not even a prefix)", wit)
         elif kind not in "dg" and r["rx"] < sent:
-            ctx.violation("orderly-close-truncated-stream", "after an orderly close the peer received only a proper prefix of the bytes written", wit)
+            if (spec["kind"] == "h" and spec["h_role"] == "V" and spec["h_action"] in ("lose", "write-lose") and role == "client"
+                    and rep[peer]["lost"] and rep[peer]["lost"][0][0] == "ConnectionDone" and rep[peer]["rx"] == 0):
+                # causal signature: another connection's handler called loseConnection() on V's server
+                # BEFORE V's own pending event (its peer's bare FIN) was dispatched, V's server closed
+                # cleanly without having received a byte and with most of its output unsent: the
+                # reactor read from a descriptor that had just stopped reading (stale event of the same
+                # batch).  The reactor is part of the key: the same symptom on another reactor class is a
+                # different defect.
+                ctx.violation("stale-read-after-loseconnection-drops-queued-data-" + name,
+                              "loseConnection() called on a connection by another connection's handler while the connection's own read event "
+                              "(peer's FIN) was pending in the same reactor iteration: the FIN was read anyway and the queued output dropped", wit)
+            else:
+                ctx.violation("orderly-close-truncated-stream", "after an orderly close the peer received only a proper prefix of the bytes written", wit)
         if kind in "dg":
             ctx.count("abort_prefix_checks")
             if r["rx"] < sent:
